@@ -54,16 +54,16 @@ impl<'a> Message<'a> {
         let trimmed = input.trim_start();
 
         if !trimmed.is_empty() {
-            // start_pos after ':' if exists - to skip ':' before source
-            let start_pos = if trimmed.bytes().next() == Some(b':') {
-                1
-            } else {
-                0
-            };
-            let (rest, last_param) = if let Some((rest, lp)) = trimmed[start_pos..].split_once(':')
-            {
-                // get rest. add first character length to rest length.
-                (&trimmed[0..rest.len() + start_pos], Some(lp))
+            // last parameter starts from ':' that is placed after whitespace -
+            // other ':' can be a part of source or of middle parameter.
+            let lp_pos = trimmed
+                .bytes()
+                .enumerate()
+                .skip(1)
+                .find(|(i, c)| *c == b':' && trimmed.as_bytes()[i - 1].is_ascii_whitespace())
+                .map(|(i, _)| i);
+            let (rest, last_param) = if let Some(p) = lp_pos {
+                (&trimmed[..p], Some(&trimmed[p + 1..]))
             } else {
                 (trimmed, None)
             };
